@@ -145,7 +145,13 @@ pub enum Item {
     /// make a NON-span frame here and keep it for later: `Frame::current(rt.ctxt())`, or with `props`
     /// `Frame::push(rt.ctxt(), props!{ job })` (a plain property) — the context a dispatcher captures when a job
     /// is submitted. At top level before any trace the frame carries no traceparent.
-    CaptureFrame { props: bool },
+    /// `root`: `Frame::root(rt.ctxt(), props!{ job })` instead — a frame for JUST that plain property
+    /// (`Ctxt::open_root`); the property text says nothing about what such a frame shows inside a trace
+    CaptureFrame {
+        props: bool,
+        #[serde(default)]
+        root: bool,
+    },
     /// take the nearest frame captured lexically before this point that nobody has used yet (none: just run
     /// the items) and run `items` inside it — wherever this is: inside spans, header frames, other threads
     RunFrame { how: RunHow, items: Vec<Item> },
@@ -166,8 +172,123 @@ pub enum Item {
     },
 }
 
+/// How the trace-context ctxt reaches the runtime: the type put into `Runtime<.., C, ..>`.
+/// `T` = `TraceparentCtxt<ThreadLocalCtxt /*fresh*/>`, `Dyn` = `dyn ErasedCtxt + Send + Sync`.
+#[derive(Serialize, Deserialize, Debug, Clone, Copy, PartialEq, Eq, Default)]
+pub enum Via {
+    /// `T` itself (what `setup().init_runtime()` builds)
+    #[default]
+    Concrete,
+    /// `&T` (a runtime that borrows a ctxt somebody else owns)
+    Ref,
+    /// `Box<T>`
+    Boxed,
+    /// `Arc<T>` (e.g. `setup().map_ctxt(|c| Arc::new(TraceparentCtxt::new(c)))`, to keep a handle on the ctxt)
+    Shared,
+    /// `Option<T>`, `Some`
+    Optional,
+    /// `emit::runtime::AssertInternal<T>` (the only way a trace-context ctxt gets into the internal runtime)
+    AssertInternal,
+    /// `Box<Dyn>` holding the generated nest
+    BoxDyn,
+    /// `Arc<Dyn>` holding the generated nest
+    ArcDyn,
+    /// `Option<&Dyn>`, `Some` — the ctxt type of `AmbientSlot::get()` (what the macros see without `rt:`)
+    Ambient,
+}
+
+impl Via {
+    pub fn is_erased(self) -> bool {
+        matches!(self, Via::BoxDyn | Via::ArcDyn | Via::Ambient)
+    }
+}
+
+/// One level of a nest built at run time: the wrapper is put around the `Box<Dyn>` built so far and the
+/// result is erased into a `Box<Dyn>` again.
+#[derive(Serialize, Deserialize, Debug, Clone, Copy, PartialEq, Eq)]
+pub enum Wrap {
+    /// `Box<Box<Dyn>>`
+    Boxed,
+    /// `Arc<Box<Dyn>>`
+    Shared,
+    /// `Option<Box<Dyn>>`, `Some`
+    Optional,
+    /// `AssertInternal<Box<Dyn>>`
+    AssertInternal,
+    /// `Arc<Dyn>` (made from the box)
+    SharedDyn,
+}
+
+#[derive(Serialize, Deserialize, Debug, Clone, PartialEq, Eq, Default)]
+pub struct CtxtVia {
+    pub via: Via,
+    /// erased vias only: wrappers between the erasure and the `TraceparentCtxt`, outermost first
+    #[serde(default)]
+    pub nest: Vec<Wrap>,
+    /// erased vias only: `Some(ws)` = the ctxt INSIDE is not `ThreadLocalCtxt` itself but a `Box<Dyn>` holding
+    /// `ws` (outermost first) around it: `TraceparentCtxt<Box<Dyn>>`
+    #[serde(default)]
+    pub inner: Option<Vec<Wrap>>,
+}
+
+impl CtxtVia {
+    /// The wrapper impls of `Ctxt` a call passes through before it reaches `TraceparentCtxt`, outermost first,
+    /// without repetitions (`erased` = `impl Ctxt for dyn ErasedCtxt (+ Send + Sync)`).
+    pub fn kinds(&self) -> Vec<&'static str> {
+        let mut out: Vec<&'static str> = Vec::new();
+        let mut add = |k: &'static str| {
+            if !out.contains(&k) {
+                out.push(k)
+            }
+        };
+        match self.via {
+            Via::Concrete => {}
+            Via::Ref => add("ref"),
+            Via::Boxed => add("box"),
+            Via::Shared => add("arc"),
+            Via::Optional => add("option"),
+            Via::AssertInternal => add("assert-internal"),
+            Via::BoxDyn => {
+                add("box");
+                add("erased")
+            }
+            Via::ArcDyn => {
+                add("arc");
+                add("erased")
+            }
+            Via::Ambient => {
+                add("option");
+                add("ref");
+                add("erased")
+            }
+        }
+        if self.via.is_erased() {
+            for w in &self.nest {
+                match w {
+                    Wrap::Boxed => add("box"),
+                    Wrap::Shared => add("arc"),
+                    Wrap::Optional => add("option"),
+                    Wrap::AssertInternal => add("assert-internal"),
+                    Wrap::SharedDyn => add("arc"),
+                }
+                // every level is a `Box<Dyn>` again
+                add("box");
+                add("erased");
+            }
+        }
+        out
+    }
+
+    pub fn is_plain(&self) -> bool {
+        self.via == Via::Concrete
+    }
+}
+
 #[derive(Serialize, Deserialize, Debug, Clone)]
 pub struct Case {
+    /// how the ctxt reaches the runtime (absent in old replay files: the concrete value)
+    #[serde(default)]
+    pub ctxt: CtxtVia,
     /// true: no sampler is installed at all (`TraceparentFilter::new()`, what `emit_traceparent::setup()`
     /// builds): every locally started trace is sampled, `sampler` / `sampler_default` are unused and the
     /// sampler log must stay empty; unsampled traces then only arrive through incoming headers
@@ -213,7 +334,7 @@ pub enum PItem {
     Yield,
     Panic,
     Catch { items: Vec<PItem>, post: usize },
-    CaptureFrame { slot: usize, props: bool },
+    CaptureFrame { slot: usize, props: bool, root: bool },
     /// `frame`: the capture slot this run takes (resolved lexically by the numberer, each capture is used once)
     RunFrame { frame: Option<usize>, how: RunHow, in_async: bool, items: Vec<PItem>, pre: usize, end: Option<usize>, post: usize },
     /// `in_async`: entered with `Frame::in_future` (async code) instead of `Frame::call`
@@ -279,12 +400,12 @@ impl Numberer {
     fn item(&mut self, it: &Item, in_async: bool) -> PItem {
         match it {
             Item::Panic => PItem::Panic,
-            Item::CaptureFrame { props } => {
+            Item::CaptureFrame { props, root } => {
                 let slot = self.frames;
                 self.frames += 1;
                 self.used.push(false);
                 self.visible.push(slot);
-                PItem::CaptureFrame { slot, props: *props }
+                PItem::CaptureFrame { slot, props: *props, root: *root }
             }
             Item::RunFrame { how, items } => {
                 let frame = self.visible.iter().rev().copied().find(|s| !self.used[*s]);
